@@ -559,4 +559,84 @@ theorem kept_isValue_neg {tbl : ClassTable} {T : BoolTable} {l o : Obj} {m : Ty}
     · simp [h1, hm]
   | _ => simp [hm]
 
+theorem mem_enumRest (tbl : ClassTable) (T : BoolTable) (e j : Nat) (drop : Nat → Bool)
+    (hj : j < T.enumCount e) (hd : drop j = false) :
+    mem tbl (.inst e j) (enumRest T e drop) = true := by
+  unfold enumRest
+  rw [mem_unite_iff]
+  refine ⟨.known (.inst e j), ?_, mem_known_self tbl _⟩
+  simp only [List.mem_map, List.mem_filter, List.mem_range]
+  exact ⟨j, ⟨hj, by simp [hd]⟩, rfl⟩
+
+theorem kept_equals_pos {tbl : ClassTable} {T : BoolTable} {l : Obj} {useIs : Bool} {tst m : Ty}
+    (hd : dK tbl T (.predicate (.equals l useIs) true) tst l m = []) (hm : mem tbl l m = true) :
+    Kept tbl T (.predicate (.equals l useIs) true) l m := by
+  have hm' := hm
+  rw [← mem_unann] at hm'
+  unfold Kept
+  simp only [dK, applyK, applyPred] at hd ⊢
+  generalize unann m = u at hd hm' ⊢
+  cases u with
+  | known k =>
+    simp only [mem] at hm'
+    rw [Obj.same_comm] at hm'
+    cases useIs <;> simp [hm', same_pyEq hm', hm]
+  | _ =>
+    simp only [ite_list_nil, Bool.not_eq_true', Bool.not_eq_false] at hd
+    simp [hd, mem_known_self]
+
+theorem objOk_wf {tbl : ClassTable} {T : BoolTable} {o : Obj} (h : objOk tbl T o = true) :
+    o.wf tbl = true := by
+  simp only [objOk, Bool.and_eq_true] at h; exact h.1
+
+theorem kept_equals_neg {tbl : ClassTable} {T : BoolTable} (L : NLaws tbl T) {l o : Obj}
+    {useIs : Bool} {m : Ty} (hl : l.wf tbl = true) (ho : objOk tbl T o = true)
+    (hh : (if useIs then Obj.same o l else Obj.pyEq o l) = false) (hm : mem tbl o m = true) :
+    Kept tbl T (.predicate (.equals l useIs) false) o m := by
+  have hm' := hm
+  rw [← mem_unann] at hm'
+  unfold Kept
+  simp only [applyK, applyPred]
+  generalize unann m = u at hm' ⊢
+  cases u with
+  | known k =>
+    simp only [mem] at hm'
+    cases useIs
+    · simp only [Bool.false_eq_true, if_false] at hh ⊢
+      by_cases h1 : Obj.pyEq k l = true
+      · rw [Obj.pyEq_trans _ _ _ (same_pyEq hm') h1] at hh; cases hh
+      · simp [h1, hm]
+    · simp only [if_true] at hh ⊢
+      by_cases h1 : Obj.same k l = true
+      · rw [Obj.same_trans hm' h1] at hh; cases hh
+      · simp [h1, hm]
+  | typed c =>
+    cases l with
+    | bool b =>
+      by_cases hc : c = C.bool
+      · subst hc
+        obtain ⟨b', rfl⟩ := bool_of_mem L (objOk_wf ho) hm'
+        have : b' = !b := by
+          cases useIs <;> simp only [Bool.false_eq_true, if_false, if_true, Obj.same, Obj.tag,
+            Obj.pyEq, beq_self_eq_true, Bool.true_and] at hh <;> cases b <;> cases b' <;> simp_all
+        subst this
+        simp [mem_known_self]
+      · simp [hc, hm]
+    | inst e i =>
+      by_cases hc : (tbl.isEnum e && c == e) = true
+      · simp only [Bool.and_eq_true, beq_iff_eq] at hc
+        obtain ⟨he, rfl⟩ := hc
+        simp only [Obj.wf, Bool.and_eq_true] at hl
+        obtain ⟨j, rfl⟩ := enum_of_mem L he hl.2 hm'
+        simp only [objOk, Bool.and_eq_true, he, Bool.not_true, Bool.false_or, decide_eq_true_eq] at ho
+        have hji : (j == i) = false := by
+          cases useIs <;> simp only [Bool.false_eq_true, if_false, if_true, Obj.same, Obj.tag,
+            Obj.pyEq, beq_self_eq_true, Bool.true_and] at hh <;> simpa using hh
+        simp only [Bool.false_eq_true, if_false, he, beq_self_eq_true, Bool.and_self, if_true,
+          Option.toList_some, List.mem_singleton, exists_eq_left]
+        exact mem_enumRest tbl T c j _ ho.2 hji
+      · simp [hc, hm]
+    | _ => simp [hm]
+  | _ => cases l <;> simp [hm]
+
 end Pya.C02
